@@ -102,11 +102,16 @@ theorem accKeyed_eq_map (env : Env) (l : List (Key × Elem)) :
 
 theorem props_rel {env : Env} {cx : PCtx} {req : List String} {ps : List (String × Elem)} {sp : List SProp}
     (h : All2 (fun (a : String × Elem) (b : SProp) =>
-      a.1 = b.1 ∧ ERel env a.2 b.2.2 ∧ b.2.1 = a.2.kw.default.isSome) ps sp) :
+      a.1 = b.1 ∧ ERel env a.2 b.2.2 ∧ b.2.1 = a.2.kw.default.isSome) ps sp)
+    (hne : ∀ kv ∈ ps, kv.1 ≠ "") :
     All2 PropRel (ps.map fun kv => (mkKey cx req kv.1, kv.2.kw.default, kv.2.acc env)) sp := by
   induction h with
   | nil => exact All2.nil
-  | cons hr _ ih => exact All2.cons ⟨by simpa [mkKey, Key.src] using hr.1, hr.2.1, hr.2.2⟩ ih
+  | @cons a b as bs hr _ ih =>
+    refine All2.cons ⟨?_, hr.2.1, hr.2.2⟩ (ih fun kv hkv => hne kv (List.mem_cons_of_mem _ hkv))
+    show (mkKey cx req a.1).src = b.1
+    rw [src_mkKey cx req a.1 (hne a (List.mem_cons_self ..))]
+    exact hr.1
 
 theorem props_names {env : Env} {ps : List (String × Elem)} {sp : List SProp}
     (h : All2 (fun (a : String × Elem) (b : SProp) =>
